@@ -74,8 +74,11 @@ class CacheObserver:
         step["fnt"] = sorted(fnt)
         # return edges: cache indexes vs scan of the CFG
         rc = cache.return_cache
+        # any_return_edges() answers by key membership, so empty entries count
         rcc = sorted([uid(src), len(es), len(rc._proxy_return_edges.get(src, ()))]
-                     for src, es in rc._return_edges.items() if es)
+                     for src, es in rc._return_edges.items())
+        rcc += sorted([uid(src), -1, len(es)] for src, es in rc._proxy_return_edges.items()
+                      if src not in rc._return_edges)
         scan: Dict[object, list] = {}
         for e in m.ir.cfg:
             if e.label is not None and e.label.type == gtirb.Edge.Type.Return:
